@@ -306,6 +306,14 @@ def run(pid, tier, seed):
     if p_fail:
         print(f"NOTE property=C19 the PrettyFormatter automaton (spec/QtlPretty.tla) rejected {len(p_fail)} of {p_info['runs']} runs "
               "- the default line layout changed", flush=True)
+    from . import utils_spec
+    mcu = C.run_tlc("MC_Utils", "MC_Utils.cfg", workers=2)
+    if mcu.violation:
+        print("NOTE property=C19 MC_Utils: " + str(mcu.violation)[:200], flush=True)
+    u_acc, u_fail, u_info = utils_spec.campaign(bdir, rnd, 120 if tier == "quick" else 3000, work)
+    if u_fail:
+        print(f"NOTE property=C19 the message-pattern / filter-rule helpers (spec/QtlUtils.tla) rejected {len(u_fail)} of "
+              f"{u_info['histories']} histories", flush=True)
     nontrivial = sum(1 for o in owners if isinstance(o, IniScenario) and (o.rules or o.rx["kind"] != "none"))
     C.write_evidence(pid, tier, seed, "model_checking", {
         "states": mc.distinct + mcp.distinct, "transitions": mc.generated + mcp.generated,
@@ -319,7 +327,10 @@ def run(pid, tier, seed):
                 "QMessageLogger; install/restore/foreign histories of <= 9 steps with two Logger objects; non-trivial = the configuration "
                 "filters something (or it is a handler history)",
         "exhaustive": False,
-        "beyond_the_property": {"pretty_formatter_automaton": dict(p_info, accepted_runs=p_acc, rejected_runs=len(p_fail))},
+        "beyond_the_property": {"pretty_formatter_automaton": dict(p_info, accepted_runs=p_acc, rejected_runs=len(p_fail)),
+                                "utils_message_pattern_and_filter_rules": dict(u_info, accepted_histories=u_acc,
+                                                                               rejected_histories=len(u_fail),
+                                                                               model_states=mcu.distinct)},
         "ini_children": n_ini, "one_line_children": n_one, "handler_histories": n_hist, "rejected": len(rejected),
     }, time.time() - t0, viol, [
         "TLC and the Json/IOUtils community modules are trusted",
